@@ -17,7 +17,7 @@ SHARDS = {"quick": 12, "thorough": 16}
 WATCHDOG = {"quick": 1500, "thorough": 3300}
 REQUIRED_CLASSES = {t: ["analyzer:Elementary", "analyzer:Probit", "analyzer:MaxLikeInf", "analyzer:MaxLikeFull", "relation:load_scaling",
                         "relation:cycle_scaling", "relation:row_permutation", "exact_basquin_data", "data:runouts_on_several_levels",
-                        "data:fracture_below_highest_runout", "data:pure_fracture_level_below_highest_runout", "relation:scaling_by_orders_of_magnitude"]
+                        "data:fracture_below_highest_runout", "data:pure_fracture_level_below_highest_runout", "relation:scaling_by_orders_of_magnitude", "data:no_runouts"]
                     for t in ("quick", "thorough")}
 REQUIRED_MONITORS = ["load_scaling:SD*c,rest_unchanged", "cycle_scaling:ND*c,rest_unchanged", "row_permutation:identical",
                      "exact_data:k_1_exact", "exact_data:TN==TS==1", "zones_partition_at_transition", "loglik(MaxLike)>=loglik(Elementary)", "likelihood_equivariant"]
@@ -56,10 +56,11 @@ def generate(ctx):
     plan = [("reg", ctx.scaled(cnt["reg"])), ("inf", ctx.scaled(cnt["inf"])), ("full", max(1, cnt["full"] // ctx.nshards))]
     for group, n in plan:
         for i in range(n):
-            yield {"group": group, "rseed": int(rng.integers(0, 2**31)), "exact": bool(group == "reg" and i % 5 == 0)}
+            yield {"group": group, "rseed": int(rng.integers(0, 2**31)), "exact": bool(group == "reg" and i % 5 == 0),
+                   "norun": bool(group == "reg" and i % 8 == 3)}
 
 
-def dataset(rng, exact=False):
+def dataset(rng, exact=False, norun=False):
     k = float(rng.uniform(3, 12))
     SD = float(rng.uniform(100, 500))
     ND = float(10 ** rng.uniform(5.5, 6.5))
@@ -67,7 +68,7 @@ def dataset(rng, exact=False):
     sS = float(rng.uniform(0.01, 0.04))
     nf = int(rng.integers(3, 6))
     fin = SD * np.round(1.15 + np.sort(rng.uniform(0.05, 1.0, nf)), 3)
-    ni = int(rng.integers(2, 5))
+    ni = 0 if norun else int(rng.integers(2, 5))          # norun: a series without any run-out (no endurance limit estimate)
     inf = SD * np.round(np.linspace(0.94, 1.08, ni), 3)
     rows = []
     lim = 1e7
@@ -89,7 +90,7 @@ def dataset(rng, exact=False):
     if ni >= 3 and rng.random() < 0.5:
         # a level on which every specimen broke although specimens survive higher up (early failures)
         masks[int(rng.integers(0, ni - 2))][:] = True
-    if sum(int(fr.sum()) for fr in masks) < 3:
+    if masks and sum(int(fr.sum()) for fr in masks) < 3:
         # the maximum likelihood analyzers demand three fractures in the infinite zone (ValueError otherwise):
         # every level has at least three tests, so one more fracture still leaves it a run-out
         fr = masks[-1]
@@ -124,8 +125,8 @@ def loglik(df, wc):
 KEYS = ["k_1", "ND", "SD", "TN", "TS"]
 
 
-def _same(a, b, rtol):
-    for k in KEYS:
+def _same(a, b, rtol, keys=None):
+    for k in (keys or KEYS):
         x, y = float(a[k]), float(b[k])
         if (math.isnan(x) and math.isnan(y)) or (math.isinf(x) and x == y):
             continue
@@ -137,15 +138,16 @@ def _same(a, b, rtol):
 def run_case(case, ctx):
     import pylife.materialdata.woehler  # noqa: F401
     rng = np.random.Generator(np.random.PCG64(case["rseed"]))
-    df, truth = dataset(rng, case["exact"])
+    norun = bool(case.get("norun"))
+    df, truth = dataset(rng, case["exact"], norun)
     group = case["group"]
     names = {"reg": ["Elementary", "Probit"], "inf": ["MaxLikeInf"], "full": ["MaxLikeFull"]}[group]
     ctx.nontrivial(not case["exact"])
-    ctx.tag("data:runouts_on_several_levels")
     ro = df[~df.fracture]
-    if (df[df.fracture].load < ro.load.max()).any():
+    ctx.tag("data:no_runouts" if norun else "data:runouts_on_several_levels")
+    if len(ro) and (df[df.fracture].load < ro.load.max()).any():
         ctx.tag("data:fracture_below_highest_runout")
-    if len(np.setdiff1d(df[df.fracture & (df.load < ro.load.max())].load.unique(), ro.load.unique())):
+    if len(ro) and len(np.setdiff1d(df[df.fracture & (df.load < ro.load.max())].load.unique(), ro.load.unique())):
         ctx.tag("data:pure_fracture_level_below_highest_runout")
     # zones partition the tests at the reported transition
     fd = df.copy().fatigue_data
@@ -190,7 +192,10 @@ def run_case(case, ctx):
             exp = base.copy()
             for k, f in expect.items():
                 exp[k] = exp[k] * f
-            ok_, key = _same(other, exp, 1e-9 if exact_method else 1e-5)
+            # without run-outs there is no endurance limit (SD = 0) and ND is the life at a fixed stand-in load: the statement
+            # says nothing about ND under a change of the load unit, so it is left out of that one relation
+            keys = [k for k in KEYS if k != "ND"] if (norun and monitor.startswith("load_scaling")) else None
+            ok_, key = _same(other, exp, 1e-9 if exact_method else 1e-5, keys)
             detail = {"analyzer": name, "differs_in": key, "base": {k: float(base[k]) for k in KEYS}, "other": {k: float(other[k]) for k in KEYS}}
             tags = []
             if not exact_method:
